@@ -9,10 +9,10 @@ echo "== demo WITH patch (expect failure)"
 cargo test -p $CRATE --offline --test $DEMO 2>&1 | grep -E "^test result|panicked|FAILED" | head -5
 echo "== existing tests WITH patch (expect ok)"
 cargo test -p $CRATE --offline 2>&1 | grep -E "^test result" | awk '{p+=$4; f+=$6} END {print "passed",p,"failed",f}'
-git stash -q
+git apply -R /tmp/seed/$ID/patch.diff
 echo "== demo WITHOUT patch (expect ok)"
 cargo test -p $CRATE --offline --test $DEMO 2>&1 | grep -E "^test result|panicked|FAILED" | head -5
-git stash pop -q
+git apply /tmp/seed/$ID/patch.diff
 cd /repo && git apply --check /tmp/seed/$ID/patch.diff || { echo "patch does not apply to /repo"; exit 8; }
 git apply /tmp/seed/$ID/patch.diff
 cd /verif
